@@ -12,6 +12,7 @@ The same predicate is evaluated by the native driver on every dump of an impleme
 -/
 import Pep508.Proofs.WfAnd
 import Pep508.Proofs.WfUnary
+import Pep508.Proofs.ExprStr
 set_option linter.unusedSectionVars false
 namespace Pep508.C20
 open Pep508
@@ -89,6 +90,6 @@ theorem reach_wf (pv : νr) (t : Tree νr νb α) (h : Reach pv t) : t.wf = true
 example : Reach (νb := Nat) (α := Nat) 0
     (((Tree.and (rangeNode 0 [⟨.incl 3, .excl 5⟩]) (.bool 1 (.leaf true) (.leaf false))).complexifyPy 0 (.incl 4) .unb).restrict
       (fun _ => some true)) :=
-  .restrict _ (.complexify _ _ (.and (.range 0 _ (by simp [Ranges.Norm, Ivl.valid])) (.boolPos 1)))
+  .restrict _ (.complexify _ _ (.and (.range 0 _ (Ranges.norm_single _ (by decide))) (.boolPos 1)))
 
 end Pep508.C20
